@@ -76,6 +76,31 @@ theorem perm_then_sort_strings {α} (key : α → Bytes) (es₁ es₂ : List α)
     sortedBy (fun a b => bytesLe (key a) (key b)) es₁ = sortedBy (fun a b => bytesLe (key a) (key b)) es₂ :=
   sortedBy_key_perm_eq key bytesLe bytesLe_total bytesLe_trans bytesLe_antisymm hp hn
 
+/-- regenerated obligation: ServiceThrows sorts by exactly the key it deduplicated by — the map key is
+`string(e.GoTypeName())`, the comparator is `e.GoTypeName().String() < e.GoTypeName().String()` and
+`(TypeName).String` is the identity conversion — so the sort key is injective on the collected
+exceptions (they are the values of a map keyed by it) and `service_throws_perm` applies. A comparator
+over anything coarser (say the type name without its package qualifier) breaks this. -/
+theorem service_throws_sorts_by_dedup_key :
+    serviceThrowsDedupKey = "string(e.GoTypeName())" ∧
+    serviceThrowsLess = ("e.GoTypeName().String()", "<", "e.GoTypeName().String()") ∧
+    typeNameString = "string(tn)" := by decide
+
+/-- ServiceThrows: entries (Go type name, exception) of the map `fm`, collected in iteration order,
+sorted by the type name: one list for every order. -/
+theorem service_throws_perm {ν} (es₁ es₂ : List (Bytes × ν)) (hp : es₁.Perm es₂) (hn : (es₁.map Prod.fst).Nodup) :
+    sortedBy (fun a b => bytesLe a.1 b.1) es₁ = sortedBy (fun a b => bytesLe a.1 b.1) es₂ :=
+  sortedBy_key_perm_eq Prod.fst bytesLe bytesLe_total bytesLe_trans bytesLe_antisymm hp hn
+
+/-- … and the key must be injective: sorting (package-qualified name, bare name) pairs by the bare name
+keeps `billing.Rejected` / `storage.Rejected` in the order they came. -/
+theorem service_throws_bare_name_insufficient :
+    sortedBy (fun a b : Bytes × Bytes => bytesLe a.2 b.2) [([98, 46, 82], [82]), ([115, 46, 82], [82])] ≠
+    sortedBy (fun a b : Bytes × Bytes => bytesLe a.2 b.2) [([115, 46, 82], [82]), ([98, 46, 82], [82])] := by decide
+
+/-- regenerated obligation: fastgo's getSortedFields orders by the field id (unique within a struct: C04). -/
+theorem sorted_fields_sorts_by_id : sortedFieldsLess = ("e.ID", "<", "e.ID") := by decide
+
 /-! ## class `filter`: the loop deletes the entries that fail a per-entry test -/
 
 /-- The same entries survive whatever the order of the visit (a Go map is determined by its entries). -/
@@ -267,7 +292,8 @@ def classified : List Classified := [
   ⟨"generator/fastgo", "(*bitsetCodeGen).GenIfNotSet", 0, "range", "interface{}", .intoMap, "inverts field→bit into bit→field; bits are distinct"⟩,
   ⟨"generator/fastgo", "(*codewriter).Imports", 0, "range", "string", .sortThen,
     "paths collected per group, then sort.Strings on each group (fastgo_imports_perm); was C07 defect 2 (no_fmt) before the sort"⟩,
-  ⟨"generator/golang", "(*CodeUtils).BuildFuncMap", 0, "range", "string", .sortThen, "ServiceThrows: collected then sort.Slice by Go type name = the map key"⟩,
+  ⟨"generator/golang", "(*CodeUtils).BuildFuncMap", 0, "range", "string", .sortThen,
+    "ServiceThrows: values of fm collected, then sort.Slice by Go type name = the key of fm (service_throws_sorts_by_dedup_key pins both expressions)"⟩,
   ⟨"generator/golang", "(*GoBackend).renderByTemplate", 0, "range", "string", .filter,
     "deletes the imports whose package name the rendered file never mentions; the test reads the entry and the fixed file content only; the Imports template then ranges the map in sorted key order"⟩,
   ⟨"generator/golang", "(*importManager).init", 0, "range", "string", .nsAdd, "ns.Add(pkg, path); libNotUsed[pkg] = true"⟩,
